@@ -15,6 +15,7 @@ type Profile struct {
 	Lambdas        bool
 	StrMatch       bool
 	Interp         bool
+	Closures       bool // a function returning a lambda that closes over its parameter and a local
 	DiscardMatch   bool // a non-unit match used as a statement
 	RecursiveTypes bool // a union that refers to itself (directly, through a pair, through a slice)
 	GoKeywordNames bool // some parameters / locals are named like Go keywords (range, map, default, ...)
@@ -56,7 +57,7 @@ type Profile struct {
 	MaxDepth       int
 }
 
-var ProfileC01 = Profile{Name: "c01", DiscardMatch: true, RecursiveTypes: true, GoKeywordNames: true, MulDiv: true, Lambdas: true, StrMatch: true, Interp: true, RawStr: true, Tuple3: true, InnerFun: true, IfOnly: true,
+var ProfileC01 = Profile{Name: "c01", Closures: true, DiscardMatch: true, RecursiveTypes: true, GoKeywordNames: true, MulDiv: true, Lambdas: true, StrMatch: true, Interp: true, RawStr: true, Tuple3: true, InnerFun: true, IfOnly: true,
 	UnionNoDef: true, FieldPerm: true, Partial: true, Pipes: true, HigherOrder: true, CompositeEq: true, UsField: true, SliceLib: true, StringsLib: true,
 	TopVars: true, Shadow: true, LowerFields: true, Recursion: true, StrCompare: true, GenericFns: true, RecGroups: true, Stateful: true, UnitIfElse: true, PipeStmt: true, MoreSlice: true, BareLambda: true, GenericTypes: true, MinFuncs: 3, MaxFuncs: 7, MaxDepth: 4}
 
@@ -197,6 +198,9 @@ func Generate(r *core.Rand, p Profile, pkg string) (*Program, map[string]int) {
 		if r.Chance(0.3) {
 			g.genRecursive()
 		}
+	}
+	if p.Closures && p.Lambdas && r.Chance(0.5) {
+		g.genClosureMaker()
 	}
 	g.genRun()
 	return g.prog, g.Features
@@ -786,6 +790,42 @@ func (g *Gen) genRecursive() {
 	g.add(f)
 }
 
+// genClosureMaker: a function that runs an effect and returns a lambda closing over its
+// parameter (and over a local); observed by binding the result once and applying it twice.
+func (g *Gen) genClosureMaker() {
+	name := g.fresh("mk")
+	at := core.Pick(g.R, []*Type{TInt, TString})
+	bt := core.Pick(g.R, []*Type{TInt, TString})
+	sc := &scope{goNames: map[string]bool{}}
+	sc.add("a", at)
+	local := g.expr(at, sc, 1, true)
+	lsc := sc.child(true)
+	lsc.add("loc", at)
+	lsc.add("b", bt)
+	rt := core.Pick(g.R, []*Type{TInt, TString, TBool})
+	bodyE := g.expr(rt, lsc, 2, true)
+	// make sure the lambda really closes over something
+	var res Expr = bodyE
+	switch {
+	case rt.K == KInt && at.K == KInt:
+		res = &BinOp{"+", bodyE, v("loc")}
+	case rt.K == KString && at.K == KString:
+		res = &BinOp{"+", bodyE, v("a")}
+	case rt.K == KBool:
+		res = &BinOp{"&&", &BinOp{"=", v("loc"), v("a")}, bodyE}
+	}
+	if !FreeInExpr(res, "loc") {
+		// (an unused let is an error of the Go compiler)
+		res = call("frt.Snd", &TupleLit{Elems: []Expr{v("loc"), res}})
+	}
+	lam := &Lambda{Params: []Param{{Name: "b", T: bt}}, Body: ExprBlock(res)}
+	body := &Block{Stmts: []Stmt{&ExprStmt{call("trace", &StrLit{g.tag()})}, &Let{"loc", local}}, Result: lam}
+	f := &FuncDef{Name: name, Params: []Param{{Name: "a", T: at}}, Ret: TFunc(bt, rt), Body: body, Rec: true}
+	g.funcs = append(g.funcs, f)
+	g.add(f)
+	g.feat("function-returning-closure")
+}
+
 func (g *Gen) genRun() {
 	// The observation calls are spread over several small functions: fc allots a fixed
 	// number of type variables per top-level definition, which one huge Run would exhaust.
@@ -823,6 +863,20 @@ func (g *Gen) genRun() {
 	}
 	sc = &scope{goNames: map[string]bool{}}
 	for _, f := range g.funcs {
+		if f.Ret != nil && f.Ret.K == KFunc && f.Rec {
+			// a closure maker: bind the closure once, apply it twice
+			flush()
+			sc = &scope{goNames: map[string]bool{}}
+			cn := g.fresh("cl")
+			stmts = append(stmts, &Let{cn, &Call{Fn: v(f.Name), Args: []Expr{g.expr(f.Params[0].T, sc, 1, true)}}})
+			for q := 0; q < 2; q++ {
+				stmts = append(stmts, &ExprStmt{call("frt.Println", g.show(f.Ret.Result(), &Call{Fn: v(cn), Args: []Expr{g.expr(f.Ret.Params()[0], sc, 1, true)}}))})
+			}
+			nCalls = 0
+			flush()
+			sc = &scope{goNames: map[string]bool{}}
+			continue
+		}
 		times := 1 + g.R.Intn(2)
 		if f.Rec {
 			times = 1
